@@ -117,6 +117,10 @@ fn main() {
             println!("{}", hostile::run_async_hostile(&cfgs, &PathBuf::from(get("out", "work/ahostile"))));
             0
         }
+        "embdyn" => {
+            println!("{}", embrun::run_dyn(&get("cases", ""), &get("names", "ascii"), &PathBuf::from(get("out", "work/embdyn"))));
+            0
+        }
         "emb" => {
             println!("{}", embrun::run(&PathBuf::from(get("out", "work/emb"))));
             0
